@@ -219,3 +219,98 @@ def sup_abs_diff(f, g, lo, hi, target, max_boxes=400000, min_width=1e-13):
             heapq.heappush(heap, (-bound(c, d), c, d))
     upper = max([done_upper] + [-x[0] for x in heap])
     return upper, lower, arg, n
+
+def evaluate_d(e, x, box):
+    """(value interval, derivative interval d/dx) of the real-valued meaning of e over x in box (forward-mode
+    interval differentiation; helper applications are the ideal functions).  Piecewise expressions give the hull
+    of the derivatives of the pieces that can be active - together with continuity at the junctions (checked by
+    the caller) this bounds the Lipschitz constant on the box."""
+    cache = {}
+    ZERO_ = I(0.0, 0.0); ONE_ = I(1.0, 1.0)
+    def cond(c):
+        if c.is_const: return bool(c.val)
+        if c.op == 'bnot':
+            r = cond(c.args[0]); return None if r is None else (not r)
+        if c.op == 'band':
+            a, b = cond(c.args[0]), cond(c.args[1])
+            if a is False or b is False: return False
+            return True if (a and b) else None
+        if c.op == 'bor':
+            a, b = cond(c.args[0]), cond(c.args[1])
+            if a is True or b is True: return True
+            return False if (a is False and b is False) else None
+        if c.op in ('lt', 'le', 'gt', 'ge'):
+            return decide(c.op, rec(c.args[0])[0], rec(c.args[1])[0])
+        return None
+    def rec(n):
+        r = cache.get(n.id)
+        if r is not None: return r
+        op = n.op
+        if n is x: r = (box, ONE_)
+        elif op == 'const':
+            v = float(n.val); r = (I(v, v), ZERO_)
+        elif op in ('fadd', 'fsub'):
+            (a, da), (b, db) = rec(n.args[0]), rec(n.args[1])
+            r = (a + b, da + db) if op == 'fadd' else (a - b, da - db)
+        elif op == 'fmul':
+            (a, da), (b, db) = rec(n.args[0]), rec(n.args[1])
+            r = (a * b, a * db + b * da)
+        elif op == 'fma':
+            (a, da), (b, db), (c, dc) = rec(n.args[0]), rec(n.args[1]), rec(n.args[2])
+            r = (a * b + c, a * db + b * da + dc)
+        elif op == 'fdiv':
+            (a, da), (b, db) = rec(n.args[0]), rec(n.args[1])
+            q = a / b
+            r = (q, (da - q * db) / b)
+        elif op == 'fneg':
+            a, da = rec(n.args[0]); r = (-a, -da)
+        elif op == 'cast' and X.is_float(n.ty):
+            r = rec(n.args[0])
+        elif op == 'select':
+            c = cond(n.args[0])
+            if c is True: r = rec(n.args[1])
+            elif c is False: r = rec(n.args[2])
+            else:
+                (a, da), (b, db) = rec(n.args[1]), rec(n.args[2])
+                r = (a.hull(b), da.hull(db))
+        elif op in ('call:max', 'call:min'):
+            (a, da), (b, db) = rec(n.args[0]), rec(n.args[1])
+            f = max if op == 'call:max' else min
+            r = (I(f(a.lo, b.lo), f(a.hi, b.hi)), da.hull(db))
+        elif op == 'call:sqrt':
+            a, da = rec(n.args[0]); s = i_sqrt(a)
+            if s.lo <= 0: r = (s, I(-INF, INF))
+            else: r = (s, da / (s + s))
+        elif op == 'call:libm_ln':
+            a, da = rec(n.args[0]); r = (i_ln(a), da / a)
+        elif op == 'call:libm_log10':
+            a, da = rec(n.args[0]); r = (i_log10(a), da / (a * I(dn(math.log(10.0)), up(math.log(10.0)))))
+        elif op == 'call:libm_exp' or (op == 'app' and n.args[0].split('::')[-1] == 'expf'):
+            a, da = rec(n.args[1] if op == 'app' else n.args[0]); v = i_exp(a); r = (v, v * da)
+        elif op == 'call:libm_powf' or (op == 'app' and n.args[0].split('::')[-1] == 'powf'):
+            args = n.args[1:] if op == 'app' else n.args
+            (b, db), (y, dy) = rec(args[0]), rec(args[1])
+            if y.lo == y.hi:
+                yy = y.lo
+                v = i_pow(b, yy)
+                if b.lo <= 0 and yy < 1:
+                    r = (v, I(-INF, INF) if (db.lo != 0 or db.hi != 0) else ZERO_)
+                else:
+                    r = (v, I(yy, yy) * i_pow(b, yy - 1) * db)
+            elif b.lo == b.hi and b.lo > 0:
+                lnb = I(dn(math.log(b.lo)), up(math.log(b.lo)))
+                v = i_exp(y * lnb); r = (v, v * lnb * dy)
+            else:
+                raise Unsupported('derivative of pow with interval base and exponent')
+        elif op == 'call:abs':
+            a, da = rec(n.args[0])
+            r = (a.abs(), da if a.lo >= 0 else (-da if a.hi <= 0 else da.hull(-da)))
+        elif op == 'call:copysign':
+            (a, da), (b, db) = rec(n.args[0]), rec(n.args[1])
+            m = a.abs(); dm = da if a.lo >= 0 else (-da if a.hi <= 0 else da.hull(-da))
+            r = (m, dm) if b.lo >= 0 else ((-m, -dm) if b.hi < 0 else (m.hull(-m), dm.hull(-dm)))
+        else:
+            raise Unsupported(f"interval derivative of {op}")
+        cache[n.id] = r
+        return r
+    return rec(e)
